@@ -17,7 +17,8 @@ class C04(Prop):
             "sequential, reverse); key-log lines of all connections shuffled; oracle: per-flow packet sequences (bytes and "
             "timestamps) of the mixed export == those of the N solo exports (same packets, others removed); non-trivial = "
             ">= 2 connections actually interleave at the tap; distinct = distinct interleaving signatures")
-    reach = ["same_hosts_diff_client_port", "same_client_port_diff_server", "same_server_diff_clients", "crossed_pair_same_ports", "equal_initial_sequence_numbers", "v4_v6_mixed",
+    reach = ["same_hosts_diff_client_port", "same_client_port_diff_server", "same_server_diff_clients", "crossed_pair_same_ports", "equal_initial_sequence_numbers", "quic_cid_begins_with_other_connections_cid",
+             "resumption_shares_master_secret", "v4_v6_mixed",
              "tls_quic_mixed", "quic_zero_len_cid", "noise", "n_ge_4", "policy_bursty", "policy_sequential"]
 
     def plan(self, tier):
@@ -63,8 +64,26 @@ class C04(Prop):
                                                                     "zero_cid_pct": 30, "policy": policy,
                                                                     "long_ch_pct": 60, "crypto_reorder_pct": 60,
                                                                     "hs_dup_pct": 25}, used, **kw)
+                    qs = [x for x in conns if x["proto"] == "quic"]
+                    if qs and E.chance(35):
+                        # this connection's ids begin with the (shorter) ids of an earlier connection
+                        from .. import quicpeer as QP
+                        o3 = E.choice(qs)
+                        _, info = QP.build_units(o3)
+                        first_c = bytes.fromhex(info["dmeta"][0]["pk"][0]["dcid"])  # not an scid; use real scids below
+                        oq = o3["q"]
+                        import hashlib
+                        # the earlier connection's scids are a pure function of its sub-seed
+                        from ..rng import Rng as _R
+                        RR = _R(o3["sub"], "quic")
+                        c["q"]["scid_c_prefix"] = RR.fork("sscid").bytes(oq["scid_s_len"]).hex()
+                        c["q"]["scid_s_prefix"] = RR.fork("cscid").bytes(oq["scid_c_len"]).hex()
+                        c["cid_prefix_collision"] = True
                 else:
                     c = gen.gen_tls_conn(R.fork("conn", j), j, c2, used, **kw)
+                    tl_prev = [x for x in conns if x["proto"] == "tls"]
+                    if tl_prev and E.chance(20):
+                        gen.make_resumption_of(R.fork("resume", j), c, E.choice(tl_prev))
                     if R.chance(60):
                         apply_segmentation(R.fork("seg", j), c)
             except (ValueError, RuntimeError):
@@ -175,6 +194,10 @@ class C04(Prop):
                 out.count("reach:crossed_pair_same_ports")
             if c.get("same_isn"):
                 out.count("reach:equal_initial_sequence_numbers")
+            if c.get("cid_prefix_collision"):
+                out.count("reach:quic_cid_begins_with_other_connections_cid")
+            if c.get("resumes") is not None:
+                out.count("reach:resumption_shares_master_secret")
             if c["proto"] == "quic" and (c.get("q", {}).get("scid_c_len") == 0 or c.get("q", {}).get("scid_s_len") == 0):
                 out.count("reach:quic_zero_len_cid")
         if len(set(c["v6"] for c in conns)) > 1:
